@@ -469,3 +469,42 @@ Theorem C07_dispatcher_roundtrip :
   handle_frame v cfg 49699 (build_ppp code id d) = Ok (RChap code id d).
 Proof. exact dispatcher_roundtrip. Qed.
 Print Assumptions C07_dispatcher_roundtrip.
+
+(* ---- sequences: for every sequence of frames, from every initial host state, however the host state evolves between
+   frames (any function of the previous state and outcome — in particular the real one), no dispatcher step panics or runs
+   out of fuel, and every frame yields exactly one outcome (an error or a route) ---- *)
+Theorem C07_dispatcher_sequence_total :
+  forall next frames cfg, Forall (fun o => is_crash o = false) (disp_run next cfg frames).
+Proof. exact disp_run_total. Qed.
+Print Assumptions C07_dispatcher_sequence_total.
+Theorem C07_dispatcher_sequence_one_outcome_per_frame :
+  forall next frames cfg, length (disp_run next cfg frames) = length frames.
+Proof. exact disp_run_length. Qed.
+Print Assumptions C07_dispatcher_sequence_one_outcome_per_frame.
+
+(* ---- lock discipline of the PPPoE session receive path (hand transcription [head_paths] of internal/pppoe and pkg/ppp):
+   on every path, in every prefix: no lock is acquired while it is held (sync.Mutex is not re-entrant), locks are acquired in
+   one global order (session < LCP < IPCP < IPv6CP < RA buckets: no cyclic wait between goroutines), every blocking
+   operation happens with no lock held, and every path ends with all locks released ---- *)
+Theorem C07_lock_discipline_head :
+  forallb (fun np => path_ok [] (snd np) && match held_after [] (snd np) with [] => true | _ => false end) head_paths = true.
+Proof. exact head_paths_ok. Qed.
+Print Assumptions C07_lock_discipline_head.
+Theorem C07_lock_discipline_no_self_deadlock :
+  forall a held l b, path_ok held (a ++ Acq l :: b) = true -> holds l (held_after held a) = false.
+Proof. exact path_ok_acquire. Qed.
+Print Assumptions C07_lock_discipline_no_self_deadlock.
+Theorem C07_lock_discipline_ordered :
+  forall a held l b, path_ok held (a ++ Acq l :: b) = true ->
+  forallb (fun h => lrank h <? lrank l) (held_after held a) = true.
+Proof. exact path_ok_ordered. Qed.
+Print Assumptions C07_lock_discipline_ordered.
+Theorem C07_lock_discipline_no_blocking_under_lock :
+  forall a held b, path_ok held (a ++ Blocking :: b) = true -> held_after held a = [].
+Proof. exact path_ok_blocking. Qed.
+Print Assumptions C07_lock_discipline_no_blocking_under_lock.
+(* the seeded changes of this class are rejected by the discipline: C07_q2 (rxjEvent re-enters Close() under f.mu) and
+   C07_m2 (dispatchDHCPv6 waits for a slot under the session lock) *)
+Theorem C07_lock_discipline_seeded_refuted : path_ok [] path_q2 = false /\ path_ok [] path_m2 = false.
+Proof. exact seeded_paths_refuted. Qed.
+Print Assumptions C07_lock_discipline_seeded_refuted.
